@@ -106,8 +106,9 @@ Section Trace.
     (forall x, nth x tp' false = if existsb (Nat.eqb x) lm then false else nth x tp false).
   Proof.
     induction lm as [|l r IH]; intros k tp tp' ws Htp H.
-    - cbn [tri_copy] in H. inversion H; subst. repeat split; try assumption; try constructor.
-      intros Hne. contradiction.
+    - cbn [tri_copy] in H. inversion H; subst tp' ws.
+      split; [constructor|]. split; [intros Hne; contradiction|].
+      split; [reflexivity|]. split; [assumption|]. intros x. reflexivity.
     - cbn [tri_copy] in H.
       destruct (Nat.ltb l N) eqn:E1; cbn [negb] in H; [|discriminate].
       destruct (Nat.ltb k (er_rows E)) eqn:E2; cbn [negb] in H; [|discriminate].
@@ -140,10 +141,12 @@ Section Trace.
   Proof.
     induction lm as [|l r IH]; intros k tp Htp Hf Hc Hr.
     - exists tp. reflexivity.
-    - inversion Hf as [|x l' Hl Hf']; subst. cbn [tri_copy length] in *.
+    - pose proof (Forall_inv Hf) as Hl. pose proof (Forall_inv_tail Hf) as Hf'.
+      cbv beta in Hl. cbn [tri_copy length] in *.
       assert (E1 : Nat.ltb l N = true) by (apply Nat.ltb_lt; assumption).
       assert (E2 : Nat.ltb k (er_rows E) = true) by (apply Nat.ltb_lt; lia).
-      rewrite E1, E2, Nat.eqb_refl. cbn [negb].
+      assert (E3 : Nat.eqb (er_cols E) d = true) by (apply Nat.eqb_eq; assumption).
+      rewrite E1, E2, E3. cbn [negb].
       destruct (IH (S k) (set_nth l false tp)) as [tp' Ht]; try assumption; try lia.
       { rewrite set_nth_length; lia. }
       rewrite Ht. exists tp'. reflexivity.
@@ -281,7 +284,8 @@ Section Trace.
     { rewrite Hw, map_app, copy_writes_fst, map_map. cbn [fst]. rewrite map_id. reflexivity. }
     assert (Hrest_nd : NoDup rest) by (apply NoDup_filter; apply seq_NoDup).
     assert (Hrest_in : forall x, In x rest <-> x < N /\ ~ In x lm).
-    { intros x. unfold rest. rewrite filter_In, in_seq, negb_true_iff, existsb_eqb_notIn. lia. }
+    { intros x. unfold rest. rewrite filter_In, in_seq, negb_true_iff, existsb_eqb_notIn.
+      split; intros [Ha Hb]; split; try assumption; lia. }
     split.
     { intros x Hx. rewrite Hfst, count_occ_app, !count_occ_NoDup_lm by assumption.
       destruct (existsb (Nat.eqb x) lm) eqn:Ex.
